@@ -758,16 +758,27 @@ class Model(oi.Model):
 
         rowv = {c: lin(c._expression, x) for c in rows}
         feas = []
+        # a float infinity stored as a bound (optlang expects None) is read as "no bound" when it points
+        # outwards and as an unsatisfiable bound when it points inwards; harnesses flag it separately
+        for o in V + rows:
+            if vsym.is_inf(o._lb):
+                if float(o._lb) > 0:
+                    feas.append(z3.BoolVal(False))
+        lbs = {o: (None if vsym.is_inf(o._lb) else o._lb) for o in V + rows}
+        ubs = {o: (None if vsym.is_inf(o._ub) else o._ub) for o in V + rows}
+        for o in V + rows:
+            if vsym.is_inf(o._ub) and float(o._ub) < 0:
+                feas.append(z3.BoolVal(False))
         for v in V:
-            if v._lb is not None:
-                feas.append(x[v] >= lift(v._lb))
-            if v._ub is not None:
-                feas.append(x[v] <= lift(v._ub))
+            if lbs[v] is not None:
+                feas.append(x[v] >= lift(lbs[v]))
+            if ubs[v] is not None:
+                feas.append(x[v] <= lift(ubs[v]))
         for c in rows:
-            if c._lb is not None:
-                feas.append(rowv[c] >= lift(c._lb))
-            if c._ub is not None:
-                feas.append(rowv[c] <= lift(c._ub))
+            if lbs[c] is not None:
+                feas.append(rowv[c] >= lift(lbs[c]))
+            if ubs[c] is not None:
+                feas.append(rowv[c] <= lift(ubs[c]))
         feas_f = z3.And(*feas) if feas else z3.BoolVal(True)
         rec = dict(n=n, site=_site(), x={v.name: x[v] for v in V}, sense=sense)
         E.solve_log.append(rec)
@@ -793,18 +804,18 @@ class Model(oi.Model):
         cone = []
         symbolic_cone = False
         for v in V:
-            if v._lb is not None:
+            if lbs[v] is not None:
                 cone.append(dd[v] >= 0)
-            if v._ub is not None:
+            if ubs[v] is not None:
                 cone.append(dd[v] <= 0)
         for c in rows:
             e = LinExpr(c._expression.c, 0)
             if any(_is_sym(co) for co in e.c.values()):
                 symbolic_cone = True
             r = lin(e, dd)
-            if c._lb is not None:
+            if lbs[c] is not None:
                 cone.append(r >= 0)
-            if c._ub is not None:
+            if ubs[c] is not None:
                 cone.append(r <= 0)
         if any(_is_sym(co) for co in obj.c.values()):
             symbolic_cone = True
@@ -834,21 +845,21 @@ class Model(oi.Model):
                 if not _conc_zero(a):
                     t = t - lift(a) * y[c]
             kkt.append(d[v] == t)
-            if v._ub is not None:
-                kkt.append(z3.Implies(d[v] > 0, x[v] == lift(v._ub)))
+            if ubs[v] is not None:
+                kkt.append(z3.Implies(d[v] > 0, x[v] == lift(ubs[v])))
             else:
                 kkt.append(d[v] <= 0)
-            if v._lb is not None:
-                kkt.append(z3.Implies(d[v] < 0, x[v] == lift(v._lb)))
+            if lbs[v] is not None:
+                kkt.append(z3.Implies(d[v] < 0, x[v] == lift(lbs[v])))
             else:
                 kkt.append(d[v] >= 0)
         for c in rows:
-            if c._ub is not None:
-                kkt.append(z3.Implies(y[c] > 0, rowv[c] == lift(c._ub)))
+            if ubs[c] is not None:
+                kkt.append(z3.Implies(y[c] > 0, rowv[c] == lift(ubs[c])))
             else:
                 kkt.append(y[c] <= 0)
-            if c._lb is not None:
-                kkt.append(z3.Implies(y[c] < 0, rowv[c] == lift(c._lb)))
+            if lbs[c] is not None:
+                kkt.append(z3.Implies(y[c] < 0, rowv[c] == lift(lbs[c])))
             else:
                 kkt.append(y[c] >= 0)
         for k in kkt:
